@@ -624,10 +624,13 @@ def faults(rng, text, sk):
         fn = re.match(r"define \S+ @([^\s(]+)\(", lines[j]).group(1)
         ents = sk.split(";")
         sk2 = None
+        # the ORDINAL of the function among the function entities (several unnamed functions all carry the key `#`)
+        ordinal = sum(1 for l in lines[:j] if l.startswith(("define ", "declare ")))
+        fents = [k for k, e in enumerate(ents) if e.split("|")[0] == "F"]
         for k, e in enumerate(ents):
             f = e.split("|")
             key = fn if not fn.isdigit() else "#"
-            if f[0] == "F" and f[1] == key and len(f) >= 5 and m.group(1) in f[4].split():
+            if ordinal < len(fents) and k == fents[ordinal] and f[1] == key and len(f) >= 5 and m.group(1) in f[4].split():
                 toks = f[4].split(); toks[toks.index(m.group(1))] = "undef.l"; f[4] = " ".join(toks)
                 ents[k] = "|".join(f); sk2 = ";".join(ents); break
         if sk2:
@@ -671,9 +674,11 @@ def faults(rng, text, sk):
                 nl = lines[k2].replace("%" + n2 + " = ", "%" + n1 + " = ", 1)
                 fn = re.match(r"define \S+ @([^\s(]+)\(", l).group(1)
                 ents = sk.split(";")
+                ordinal = sum(1 for x in lines[:j] if x.startswith(("define ", "declare ")))
+                fents = [q for q, e in enumerate(ents) if e.split("|")[0] == "F"]
                 for q, e in enumerate(ents):
                     f = e.split("|")
-                    if f[0] == "F" and f[1] == (fn if not fn.isdigit() else "#") and len(f) >= 5 and n2 in f[3].split():
+                    if ordinal < len(fents) and q == fents[ordinal] and f[1] == (fn if not fn.isdigit() else "#") and len(f) >= 5 and n2 in f[3].split():
                         toks = f[3].split(); toks[toks.index(n2)] = n1; f[3] = " ".join(toks)
                         # uses of n2 become undefined too; that is still an error
                         ents[q] = "|".join(f)
